@@ -172,9 +172,8 @@ def do_check(run: Run, args):
     for extra in getattr(mod, "USES", []):
         em = importlib.import_module(f"contracts.{extra}")
         for c in em.contracts():
-            if not reg.callee(c.target) or c.variant:
-                c._foreign = True
-                reg.add(c)
+            c._foreign = True
+            reg.add(c)      # the registry keeps one contract per (target, variant, interface)
     ctx = Ctx(facts, reg)
     known = load_known()
     timeout_ms = 20000 if not run.thorough() else 60000
